@@ -253,3 +253,41 @@ def map_selector_failure(which, bad: int, catch: bool, mc: int, nested: bool, c0
 
 SCN["map_selector_failure"] = (["0 <= bad <= 2 and 0 <= mc <= 1"], 300, 900, ("quick", "thorough"))
 scn.__dict__["map_selector_failure"] = map_selector_failure
+
+
+def oversize_result_handled(which, big: bool, how: int, c0: int, c1: int, c2: int, c3: int):
+    """A Task whose result, placed by ResultPath, makes the state's output exceed 262144 characters (big) fails with
+    States.DataLimitExceeded; a Catcher (how 0) gets the Error Output placed into the state's ORIGINAL input, a Retrier
+    (how 1) re-runs the Task with its original input."""
+    big = cbool(big); how = cint(how, 0, 1)
+    t = task("f", ResultPath="$.r", Next="Z")
+    if how == 0:
+        t["Catch"] = [{"ErrorEquals": ["States.DataLimitExceeded"], "ResultPath": "$.error", "Next": "H"}]
+    else:
+        t["Retry"] = [{"ErrorEquals": ["States.DataLimitExceeded"], "IntervalSeconds": 1, "MaxAttempts": 1, "BackoffRate": 1.0}]
+    asl = {"StartAt": "T", "States": {"T": t, "Z": {"Type": "Pass", "Parameters": {"k.$": "$.k", "n.$": "States.ArrayLength($.r.a)"}, "End": True},
+                                      "H": {"Type": "Pass", "Parameters": {"k.$": "$.k", "caught.$": "$.error.Error"}, "End": True}}}
+    seen = []
+
+    def w(req):
+        seen.append(sorted(req) if isinstance(req, dict) else req)
+        # ~262000 characters: within the limit for a Task reply, over it once placed next to the 600-character input
+        n = 1 if (not big or len(seen) > 1) else 43650
+        return {"a": ["xy"] * n}
+    data = {"k": "v" * 600}
+
+    def chk(run, inst, mon):
+        if any(s != ["k"] for s in seen):
+            return "C07 the Task was re-run with %s as its input, not with the state's original input ['k']" % (seen,)
+        return ""
+    if not big:
+        expect = ("SUCCEEDED", {"k": "v" * 600, "n": 1})
+    elif how == 0:
+        expect = ("SUCCEEDED", {"k": "v" * 600, "caught": "States.DataLimitExceeded"})
+    else:
+        expect = ("SUCCEEDED", {"k": "v" * 600, "n": 1})
+    return _run(asl, data, [c0, c1, c2, c3], {"f": w}, which, "STANDARD", expect, extra_check=chk, max_steps=60)
+
+
+SCN["oversize_result_handled"] = (["0 <= how < 2"], 300, 900, ("quick", "thorough"))
+scn.__dict__["oversize_result_handled"] = oversize_result_handled
